@@ -207,3 +207,15 @@ Example C11_replay_with_targets_nonvacuous :
     [(mkE 1 1, (4%N, ezero)); (mkE 2 0, (5%N, ezero)); (mkE 3 0, (6%N, mkE 2 0))].
 Proof. split; [exact demo_replay_t_pre|exact demo_replay_t_result]. Qed.
 Print Assumptions C11_replay_with_targets.
+
+(** ** Batch exchange through a REGISTERED filter: the same events, entity by entity, in the
+    order of the cached table list (creation order, not graph order). *)
+From Arche Require Import Proofs.BatchEventsCached.
+Theorem C11_batch_exchange_events_cached : forall w A id ce add rem rel w' n evs,
+  R w A -> cache_ok w -> cache_get w id = Some ce ->
+  Forall (fun id => id < length (as_reg A)) add -> (add <> [] \/ rem <> []) ->
+  w_listener w = Some lall ->
+  op_batch_exchange w (FCached id) add rem rel = (w', Ok (VNat n), evs) ->
+  evs = flat_map (ev_of w w' add rem) (table_ents w (c_tables ce)).
+Proof. exact batch_exchange_events_cached. Qed.
+Print Assumptions C11_batch_exchange_events_cached.
